@@ -85,7 +85,7 @@ def gen_cases(ctx, n_cases, gen, depth_max, bound=2 ** 20, accept=None):
             if inner is None:
                 continue
             if k == "Perm" and rnd.random() < 0.7:
-                inner = dict(inner, p=rnd.choice([[1, 2, 0], [2, 0, 1]]))     # a 3-cycle: P^T != P
+                inner = dict(inner, p=rnd.choice([[1, 2, 0], [2, 0, 1]]), neg=rnd.choice([None, [True, False, False], [False, True, True]]))     # a 3-cycle: P^T != P
             t = dict(k=rnd.choice([w for w in ("Transp", "Adj") if w in gen.kinds]), a=inner)
             if rnd.random() < 0.2:
                 t = dict(k=rnd.choice([w for w in ("Transp", "Adj") if w in gen.kinds]), a=t)
